@@ -298,7 +298,8 @@ func GenSession(prop string, seed uint64, thorough bool) *Scenario {
 			c.JSONP, c.B64, c.J = true, true, fmt.Sprint(g.IntN(20))
 		}
 		if g.p(0.5) {
-			c.AcceptEnc = g.picks("gzip", "deflate", "br", "zstd", "gzip, deflate, br", "identity", "gzip;q=1.0, br;q=0.5")
+			c.AcceptEnc = g.picks("gzip", "deflate", "br", "zstd", "gzip, deflate, br", "identity", "gzip;q=1.0, br;q=0.5",
+				"vibrant", "x-gzipped", "notzstd, identity", "br;q=0", "GZIP", "deflate , zstd;q=0.2")
 		}
 		if o.Cors != nil || g.p(0.2) {
 			c.Origin = g.picks("http://a.test", "http://b.test", "http://c.test")
